@@ -1,5 +1,5 @@
 """C20 end to end: a policy whose classifier is http_retry_after_classifier and whose strategy is retry_after_or.
-stdin : JSON list of cases {"header": str | None, "attr": number | str | None, "fallback": ticks, "jitter": ticks, "deadline": ticks,
+stdin : JSON list of cases {"header": str | None, "attr": number | str | None, "fallback": ticks, "jitter": ticks, "deadline": ticks, ["att_timeout": ticks,]
                             "async": bool, "entry": "retry" | "retrypolicy" | "policy", "r": [num, den] draw}
 stdout: per case {"hint": seconds the classifier produced (None / number / "nan" ...), "delays": [ticks the sleeper received],
                   "end": how the call ended}
@@ -50,6 +50,8 @@ def run(c):
     fb = c["fallback"] * vclock.TICK
     kw = dict(classifier=classifier, strategy=retry_after_or(lambda ctx: fb, jitter_s=c["jitter"] * vclock.TICK), max_attempts=3,
               deadline_s=c["deadline"] * vclock.TICK)
+    if c.get("att_timeout"):
+        kw["attempt_timeout_s"] = c["att_timeout"] * vclock.TICK      # time-boxed attempts: no influence on how the hint is honoured
     n = [0]
 
     def fail_once():
